@@ -788,6 +788,29 @@ let cmd_snappy (a : sx list) : string =
       "(ok " ^ hex enc ^ " " ^ (match dec with Base.Ok d -> "(ok " ^ hex d ^ ")" | _ -> "err") ^ ")"
   | _ -> failwith "snappy: arguments"
 
+(* decend CAP BUFFERED LIMIT (ANSWER...) : the end-of-block check of reader/decompression.rs (DecodeLoop.block_end)
+   on the state hook H4 recorded -- BufReader capacity, bytes buffered, Take limit left before the check -- with
+   the recorded answers of the decoder reads the check made: ANSWER ::= err | (PRODUCED CONSUMED)
+   -> (ok DECISION (wants W...) UNUSED LIMIT_AFTER BEFORE_FIX)
+   DECISION, BEFORE_FIX ::= ok | decoder-err | leftover | take-left ; BEFORE_FIX = the check of commit 8463ea9^ *)
+let show_endres = function
+  | DecodeLoop.EndOk -> "ok" | DecodeLoop.EndDecoderErr -> "decoder-err"
+  | DecodeLoop.EndLeftover -> "leftover" | DecodeLoop.EndTakeLeft -> "take-left"
+let cmd_decend (a : sx list) : string =
+  match a with
+  | [cap; buffered; limit; Ls answers] ->
+      let nat s = nat_of_int_tr (int_of_string (atom s)) in
+      let ans = L.map (fun x -> match x with
+          | A "err" -> None
+          | Ls [p; c] -> Some (nat p, nat c)
+          | _ -> failwith "decend: bad answer") answers in
+      let (((e, wants), unused), lim) = DecodeLoop.replay_end (nat cap) (nat buffered) (nat limit) ans in
+      let old = DecodeLoop.replay_end_before_fix (nat cap) (nat buffered) (nat limit) in
+      Printf.sprintf "(ok %s (wants%s) %d %d %s)" (show_endres e)
+        (String.concat "" (L.map (fun w -> " " ^ string_of_int (int_of_nat_tr w)) wants))
+        (int_of_nat_tr unused) (int_of_nat_tr lim) (show_endres old)
+  | _ -> failwith "decend: arguments"
+
 let run_case (line : string) : string =
   try
     match parse_many line with
@@ -810,6 +833,7 @@ let run_case (line : string) : string =
          | "derive" -> cmd_derive args
          | "codecloop" -> cmd_codecloop args
          | "snappy" -> cmd_snappy args
+         | "decend" -> cmd_decend args
          | "own" -> cmd_own args
          | _ -> failwith ("unknown command " ^ cmd))
     | _ -> "(bad-case)"
